@@ -556,6 +556,26 @@ FIELD = re.compile(rb"^[!#$%&'*+\-.^_`|~0-9A-Za-z]+:[^\r\n\x00]*$")
 REJECT_CODES = (400, 505)       # statuses the HTTP component issues itself when it refuses a message
 
 
+def mentions_head(data):
+    """Does any line of the input spell HEAD (case-insensitively, also through backslash escapes)?
+
+    HEAD responses are framed differently (no body) and their handling is C15's subject: such inputs are skipped, so this
+    may be as generous as it likes.
+    """
+    if b'HEAD' in data.upper():
+        return True
+    if b'\\' not in data:
+        return False
+    for line in re.split(rb'\r\n|\n|\r', data):
+        if b'\\' in line:
+            try:
+                if 'HEAD' in line.decode('unicode_escape').upper():
+                    return True
+            except Exception:
+                pass
+    return False
+
+
 def looks_like_tls(chunk):
     """Loosest reading of 'TLS/SSL handshake': a handshake record (0x16) or an SSLv2 length byte with the high bit set."""
     return bool(chunk) and (chunk[0] == 0x16 or chunk[0] >= 0x80)
